@@ -34,7 +34,7 @@ REQUIRED_REACH = ['schedules:single-preemption', 'schedules:single-preemption-on
 NSHARDS = 16
 KINDS = ['echo', 'echo2', '404', '405', 'fallthrough', 'boom', 'redirect', 'render', 'httperr']
 # two routes on one path with different methods: a request neither admits makes the dispatcher collect both method sets
-KINDS_MORE = ['thing-delete', 'thing-post', 'thing-get', 'param', 'echo-rawtail', 'echo-rawbytes', 'item-redirect']
+KINDS_MORE = ['thing-delete', 'thing-post', 'thing-get', 'param', 'echo-rawtail', 'echo-rawbytes', 'item-redirect', 'ctxproc', 'redirector']
 EXTRA_PAIRS = [('thing-delete', 'thing-post'), ('thing-post', 'thing-delete'), ('thing-delete', 'thing-delete'), ('thing-delete', 'thing-get'),
                ('thing-post', 'echo'), ('405', 'thing-delete'), ('thing-delete', 'fallthrough'), ('param', 'param'), ('param', 'echo'), ('echo', 'param'),
                # request paths as a server hands them over: bytes that are not (or not yet) UTF-8 - a truncated multi-byte
@@ -42,10 +42,13 @@ EXTRA_PAIRS = [('thing-delete', 'thing-post'), ('thing-post', 'thing-delete'), (
                ('echo', 'echo-rawtail'), ('echo-rawtail', 'echo'), ('echo-rawtail', 'echo-rawtail'), ('404', 'echo-rawtail'),
                ('echo-rawbytes', 'echo'), ('echo', 'echo-rawbytes'), ('echo-rawtail', 'echo-rawbytes'),
                # a slash redirect issued after an earlier route on the path refused the method
-               ('item-redirect', '404'), ('404', 'item-redirect'), ('item-redirect', 'item-redirect'), ('item-redirect', 'thing-delete')]
+               ('item-redirect', '404'), ('404', 'item-redirect'), ('item-redirect', 'item-redirect'), ('item-redirect', 'thing-delete'),
+               # built-in helpers that sit on a route for its whole life: a context processor fed by a providing middleware, a
+               # ready-made redirecting endpoint below a middleware that stamps the answer
+               ('ctxproc', 'ctxproc'), ('ctxproc', 'render'), ('render', 'ctxproc'), ('redirector', 'redirector'), ('redirector', 'echo'), ('echo', 'redirector')]
 
 
-FRESH_SKIPPED = ('echo-rawtail', 'echo-rawbytes', 'item-redirect')     # (kinds explored on the warm application only)
+FRESH_SKIPPED = ('echo-rawtail', 'echo-rawbytes', 'item-redirect', 'ctxproc', 'redirector')     # (kinds explored on the warm application only)
 
 
 class RawPath(str):
@@ -109,7 +112,19 @@ def build_app():
     def param(request, who, count, page):
         return Response(json.dumps({'tok': request.headers.get('X-Token'), 'who': who, 'count': count, 'page': page}, sort_keys=True),
                         mimetype='application/json')
-    routes = [Route('/param', param, middlewares=[GetParamMiddleware({'count': int, 'page': str})]),
+    from clastic.middleware import ContextProcessor
+    from clastic.utils import Redirector
+    from clastic import render_json
+
+    class StampAnswer(Middleware):
+        def request(self, next, request):
+            r = next()
+            r.headers['X-Err-Token'] = 'stamped:' + request.headers.get('X-Token', '-')
+            return r
+    routes = [Route('/cp/<x>', lambda request, x: {'tok': request.headers.get('X-Token'), 'x': x}, render_json,
+                    middlewares=[ContextProcessor(required=['who'], defaults={'lang': 'en'})]),
+              Route('/old/<x>', Redirector('/echo/moved'), middlewares=[StampAnswer()]),
+              Route('/param', param, middlewares=[GetParamMiddleware({'count': int, 'page': str})]),
               Route('/echo/<x>', echo, methods=['GET']),
               Route('/fall/<x>', fall_first), Route('/fall/<x>', fall_second),
               Route('/boom/<x>', boom), Route('/branch/', branch), Route('/render/<x>', ctx, render_basic),
@@ -131,6 +146,10 @@ def make_request(kind, tok):
         return ('GET', RawPath('/echo/raw-%s\xc3' % tok), 'k=' + tok, h)
     if kind == 'echo-rawbytes':
         return ('GET', RawPath('/echo/caf\xe9-%s\xe2\x82' % tok), 'k=' + tok, h)
+    if kind == 'ctxproc':
+        return ('GET', '/cp/c-%s' % tok, 'k=' + tok, h)
+    if kind == 'redirector':
+        return ('GET', '/old/o-%s' % tok, '', h)
     if kind == 'item-redirect':
         return ('GET', '/item/i-%s' % tok, 'k=' + tok, h)
     if kind in ('echo', 'echo2'):
